@@ -39,6 +39,9 @@ type vmMachine struct {
 	cr3     uintptr
 	lastVirt map[uintptr]uintptr // host pte pointer -> virtual entry address
 	flushed []uintptr
+	// flushedLeaf[i]: the last-level entry the MMU would have seen for flushed[i] at the
+	// moment of the invalidation (0 when the walk from the active root does not get that far)
+	flushedLeaf []uintptr
 
 	allocs   int // allocations in the current operation
 	failAt   int // fail the failAt-th allocation of the current operation (0 = never)
@@ -100,6 +103,7 @@ func (m *vmMachine) reset() {
 	m.cr3 = 0
 	m.lastVirt = map[uintptr]uintptr{}
 	m.flushed = nil
+	m.flushedLeaf = nil
 	m.allocs, m.failAt, m.failErr, m.handed = 0, 0, nil, nil
 	m.tempOut, m.tempFail = false, false
 	m.install()
@@ -109,7 +113,14 @@ func (m *vmMachine) reset() {
 func (m *vmMachine) install() {
 	activePDTFn = func() uintptr { return m.cr3 }
 	switchPDTFn = func(a uintptr) { m.cr3 = a }
-	flushTLBEntryFn = func(a uintptr) { m.flushed = append(m.flushed, a) }
+	flushTLBEntryFn = func(a uintptr) {
+		m.flushed = append(m.flushed, a)
+		leaf := uintptr(0)
+		if es, _ := m.hwEntries(m.cr3, a); len(es) == 4 {
+			leaf = es[3]
+		}
+		m.flushedLeaf = append(m.flushedLeaf, leaf)
+	}
 	ptePtrFn = func(entry uintptr) unsafe.Pointer {
 		h, ok := m.hw(entry)
 		if !ok {
@@ -353,4 +364,45 @@ func (m *vmMachine) ff(f uint64) string {
 		return fmt.Sprintf("phys#%d", (a-m.base)>>12)
 	}
 	return fmt.Sprintf("%#x", f)
+}
+
+
+// staleAfterFlush reports a page of the active address space whose last-level
+// entry is no longer what it was when its TLB entry was last invalidated: the
+// MMU may have cached the intermediate value it saw in between.
+func (m *vmMachine) staleAfterFlush(page uint64) string {
+	last := -1
+	for i, a := range m.flushed {
+		if uint64(vmCanon(a)>>12) == page {
+			last = i
+		}
+	}
+	if last < 0 {
+		return ""
+	}
+	now := uintptr(0)
+	if es, _ := m.hwEntries(m.cr3, uintptr(page)<<12); len(es) == 4 {
+		now = es[3]
+	}
+	// the entry counts only as far as the MMU interprets it: a non-present entry is just "not present"
+	then := m.flushedLeaf[last]
+	if then&1 == 0 && now&1 == 0 {
+		return ""
+	}
+	if then != now {
+		return fmt.Sprintf("the last-level entry was %#x when the TLB entry was invalidated and is %#x now: the invalidation came before the final update, so a stale translation can stay cached", uint64(then)&^uint64(vmFrameMask)|uint64(m.frameTag(then)), uint64(now)&^uint64(vmFrameMask)|uint64(m.frameTag(now)))
+	}
+	return ""
+}
+
+// frameTag replaces the (run dependent) frame bits of an entry by a small stable number.
+func (m *vmMachine) frameTag(e uintptr) uintptr {
+	f := e & vmFrameMask
+	if f == 0 {
+		return 0
+	}
+	if m.inArena(f) {
+		return ((f - m.base) >> 12 << 12) & vmFrameMask
+	}
+	return f
 }
